@@ -139,10 +139,31 @@ class HashedIterable(Generic[T]):
 
         :return: An iterator over the hashed values.
         """
-        yield from self.values.values()
-        for v in self.iterable:
-            self.values[v.id_] = v
-            yield v
+        # Several iterations may be active at the same time (nested or interleaved evaluations that share a variable),
+        # and the wrapped iterable may be a one-shot generator. Every iteration therefore replays the values cached so
+        # far, including those cached meanwhile by other iterations, before it advances the wrapped iterable itself.
+        number_of_yielded_values = 0
+        while True:
+            if number_of_yielded_values < len(self.values):
+                cached_values = list(self.values.values())
+                for v in cached_values[number_of_yielded_values:]:
+                    number_of_yielded_values += 1
+                    yield v
+                continue
+            if not self.iterable:
+                return
+            if not hasattr(self.iterable, "__next__"):
+                self.iterable = iter(self.iterable)
+            try:
+                v = next(self.iterable)
+            except StopIteration:
+                return
+            if v.id_ not in self.values:
+                self.values[v.id_] = v
+                if number_of_yielded_values == len(self.values) - 1:
+                    # nothing else was cached meanwhile, no need to take a snapshot of the cache.
+                    number_of_yielded_values += 1
+                    yield v
 
     def __or__(self, other) -> HashedIterable[T]:
         return self.union(other)
